@@ -21,7 +21,7 @@ LEVEL_TEXT = ('Every statement of every generated program is executed through th
               'operand snapshots (structure, density, name) are compared before/after, and contracts inside the operators fire on '
               'every internal call. Reach is by workload diversity: all 17.7k atoms in the sweep, multipliers 0, 1, ints, floats over '
               '12 decades and numpy scalars, all five initializer kinds, aliases and copies; held means held on the programs generated.'
-              ' Added in rounds 4-7: blank-string leaves, formula(f, table=) copies, clone statements (copy / deepcopy / pickle), scribble statements (the caller edits f.atoms, f.mass_fraction, f.hill in place), every atom of every formula must be the object a table serves, whole-number multipliers with products beyond 2**63.')
+              ' Added in rounds 4-7: blank-string leaves, formula(f, table=) copies, clone statements (copy / deepcopy / pickle), scribble statements (the caller edits f.atoms, f.mass_fraction, f.hill in place), every atom of every formula must be the object a table serves, whole-number multipliers with products beyond 2**63. Added in round 8: fractions.Fraction leaf counts and multipliers.')
 LEVEL_NOTE = ('Trusted: pvmon/gen/programs.py (generator and shadow interpreter), pvmon/gen/formulas.py (string denotation), '
               'pvmon/ref/masses.py, CPython Fraction/float, icontract. Multipliers are bounded so that total counts stay below 1e13 '
               '(numpy.int64 overflow is numpy\'s behaviour, not the library\'s).')
